@@ -272,3 +272,35 @@ func VP_C07_KindChange() {
 	zzvp.Assert(vpFsck() == "", "the repository is connected afterwards")
 	zzvp.Done()
 }
+
+// VP_C13_KindChange: a tracked file replaced on disk by a directory (or a tracked directory by a file): the tracked path is
+// missing from the working tree, so it is reported as deleted; what stands in its place is untracked; nothing is modified.
+func VP_C13_KindChange() {
+	vpInitRepo()
+	w := zzvp.Root()
+	maxc := zzvp.Param("complen", 2)
+	top := vpPath("k", 1, maxc)
+	leaf := vpPath("l", 1, maxc)
+	other := vpPath("o", zzvp.Param("depth", 2), maxc)
+	zzvp.Assume(other != top && !vpHasDirPrefix(other, top) && !vpHasDirPrefix(top, other))
+	zzvp.WriteFile(w+"/"+other, []byte("O"))
+	vpOK(zzvp.Run("add", other))
+	var oldPath, newPath string
+	if zzvp.Choose(2) == 0 {
+		oldPath, newPath = top, top+"/"+leaf
+	} else {
+		oldPath, newPath = top+"/"+leaf, top
+	}
+	zzvp.WriteFile(w+"/"+oldPath, []byte("1"))
+	vpOK(zzvp.Run("add", oldPath))
+	vpOK(zzvp.Run("commit", "-m", "base"))
+	zzvp.RemoveAll(w + "/" + top)
+	zzvp.WriteFile(w+"/"+newPath, []byte("1"))
+	r := zzvp.Run("status")
+	zzvp.Assert(r.Exit == 0, "status succeeds")
+	st := vpParseStatus(r.Out)
+	zzvp.Assert(len(st.staged) == 0 && len(st.modified) == 0, "nothing is staged and nothing is modified")
+	zzvp.Assert(vpSameSet(st.deleted, []string{oldPath}), "deleted = exactly the tracked paths missing from the work tree (a directory standing where the file was does not make it present)")
+	zzvp.Assert(vpSameSet(st.untracked, []string{newPath}), "untracked = exactly the files on disk that are neither tracked nor ignored nor inside .goit")
+	zzvp.Done()
+}
